@@ -167,6 +167,21 @@ def sx_hex(x):
     return hex(x)
 
 
+def sx_format(x, spec=""):
+    if isinstance(x, SInt) or isinstance(x, SStr) or _needs_sym(x):
+        return _sx_fmtval(x, -1, spec)
+    return format(x, spec)
+
+
+def sx_bin(x):
+    if isinstance(x, SInt):
+        if x.lo < 0:
+            raise EngineError("bin() of a possibly negative symbolic integer")
+        n = x.bit_length()
+        return SStr.mk([ord("0"), ord("b")] + list(SStr.of(core.bits_of(x, max(n, 1))).cs))
+    return bin(x)
+
+
 def sx_hash(x):
     """hash() of a str / bytes depends on the interpreter's hash seed: an environment value (an arbitrary 64-bit integer that
     is a function of the text within one run and unrelated between two compared runs)"""
@@ -204,7 +219,7 @@ def sx_id(obj):
 
 
 BUILTINS = {
-    "id": sx_id, "frozenset": sx_frozenset, "int": sx_int, "str": sx_str, "chr": core.sym_chr, "ord": core.sym_ord, "set": sx_set, "dict": sx_dict,
+    "id": sx_id, "frozenset": sx_frozenset, "format": sx_format, "bin": sx_bin, "int": sx_int, "str": sx_str, "chr": core.sym_chr, "ord": core.sym_ord, "set": sx_set, "dict": sx_dict,
     "sorted": sx_sorted, "hex": sx_hex, "hash": sx_hash, "len": sx_len,
 }
 
@@ -229,6 +244,11 @@ def _fmt_spec_int(a, spec):
     m = re.fullmatch(r"0(\d+)b", spec)
     if m:
         return core.bits_of(a, int(m.group(1)))
+    if spec == "b":
+        return core.bits_of(a, max(a.bit_length(), 1)) if not isinstance(a, int) else format(a, "b")
+    m = re.fullmatch(r"0(\d+)x", spec)
+    if m:
+        return core.hex_of(a, int(m.group(1)))
     if spec == "x":
         return core.hex_of(a)
     if spec in ("", "d"):
